@@ -315,7 +315,7 @@ theorem mlc_stmt : ∀ (s : SStmt), okS s = true → ∀ (θ : Subst) (st st' : 
     simp only [okS, Bool.and_eq_true, Bool.not_eq_true'] at hok
     obtain ⟨⟨⟨⟨⟨hc, hb⟩, hnb⟩, he⟩, hfb⟩, hfe⟩ := hok
     have hpl : plainE (substE θ c) = true := substE_plain' θ hib c hc
-    simp only [rwS, rm_bind_ok, rm_liftX_ok, rm_get_ok, rm_pure_ok, visitE_plain _ hpl,
+    simp only [rwS, rm_bind_ok, rm_liftX_ok, rm_visitM_ok, rm_get_ok, rm_pure_ok, visitE_plain _ _ hpl,
       Except.ok.injEq] at h
     obtain ⟨b', s1, hrb, e', s2, hre, _, s3, hnote, hx, s4, hnu, _, _, ⟨rfl, rfl⟩, _, _, ⟨rfl, rfl⟩,
       gb, _, ⟨hgb, rfl⟩, ge, _, ⟨hge, rfl⟩, rfl, rfl⟩ := h
@@ -538,7 +538,7 @@ theorem body_preserved_conv (ret : Ty) : ∀ (ss : List SStmt), ss.all okTop = t
       | none => simp [okTop, okS] at hok
       | some e =>
         have he : plainE e = true := by simpa [okTop] using hok.1
-        simp only [rwS, rm_bind_ok, rm_liftX_ok, rm_pure_ok, substE_nil, visitE_plain e he, Except.ok.injEq] at h1
+        simp only [rwS, rm_bind_ok, rm_liftX_ok, rm_visitM_ok, rm_pure_ok, substE_nil, visitE_plain _ e he, Except.ok.injEq] at h1
         obtain ⟨_, _, ⟨rfl, rfl⟩, rfl, rfl⟩ := h1
         simp only [List.cons_append, List.nil_append, List.map_cons, toStmt, semBody]
         have hc : semW σr (toP e) = semW σs (toP e) :=
@@ -548,7 +548,7 @@ theorem body_preserved_conv (ret : Ty) : ∀ (ss : List SStmt), ss.all okTop = t
         exact hsem
     | expr e =>
       have he : plainE e = true := by simpa [okTop] using hok.1
-      simp only [rwS, rm_bind_ok, rm_liftX_ok, rm_pure_ok, substE_nil, visitE_plain e he, Except.ok.injEq] at h1
+      simp only [rwS, rm_bind_ok, rm_liftX_ok, rm_visitM_ok, rm_pure_ok, substE_nil, visitE_plain _ e he, Except.ok.injEq] at h1
       obtain ⟨_, _, ⟨rfl, rfl⟩, rfl, rfl⟩ := h1
       simp only [List.cons_append, List.nil_append, List.map_cons, toStmt, semBody]
       obtain ⟨σs1, hex, hrest⟩ := execBody_cons_some ret σs _ ss sv (fun e' he' => by cases he') hsem
